@@ -20,25 +20,44 @@ PROP = "C09"
 READY = True
 DRIVER = "dm_graph"
 LEAN_MODULES = ["DaskModel.Props.C09"]
-LEVEL_TEXT = ("Lean 4 theorems over transliterations of get_dependencies/keys_in_tasks, dask.core.subs and dask.optimization.cull "
-              "plus the legacy evaluator. cull: FULL w.r.t. the legacy semantics (cull_keeps_requested, cull_subgraph, cull_closed, "
-              "cull_deps_match, cull_preserves_eval) and REFUTED w.r.t. dask.core.get (cull_preserves_get_refuted: a reference "
-              "hidden in a non-task tuple is culled; known findings, same root cause for inline_functions/fuse_linear/fuse). "
-              "Substitution-based passes: subs_preserves_eval (substitution lemma), inline_step_preserves_solutions, "
-              "drop_unreferenced_preserves_values, dag_values_unique, and the PROVED CHECKER fuseOK_sound: if fuseOK accepts "
-              "(input, output, substituted keys, requested keys) then every valuation solving the input's equations solves the "
-              "output's over its own key set and all requested keys are kept; every real output of inline, inline_functions, "
-              "fuse_linear and fuse (parameter grid; rename_keys=False) is passed through the compiled checker on every run "
-              "(translation validation). PARTIAL: outputs with key renaming (rename_keys=True/custom), and the task-spec passes "
-              "(cull, fuse_linear_task_spec, Task.fuse, resolve_aliases, substitute) are validated by evaluation only (requested "
-              "keys present, values equal under dask.core.get, dependency map = get_dependencies of the returned graph).")
-LEVEL_NOTE = ("Trusted: Lean kernel + standard axioms; hand transliteration tied by function-level diff of cull (keys + dependency "
-              "map), subs and get_dependencies; every real optimiser output is evaluated with dask.core.get. Fixed in /repo: "
+TABLES = ["FusedKeyRenamer"]
+LEVEL_TEXT = ("Lean 4 theorems over transliterations of the legacy passes (get_dependencies/keys_in_tasks, dask.core.subs, "
+              "dask.optimization.cull) and of the task-spec passes of dask/_task_spec.py (cull, GraphNode.substitute, resolve_aliases, "
+              "GraphNode.fuse/_execute_subgraph, fuse_linear_task_spec), each with its evaluator. PROVED FOR ALL INPUTS: legacy cull "
+              "(cull_keeps_requested, cull_subgraph, cull_closed, cull_deps_match, cull_preserves_eval; REFUTED w.r.t. dask.core.get: "
+              "cull_preserves_get_refuted, known findings); subs_preserves_eval, inline_step_preserves_solutions, "
+              "drop_unreferenced_preserves_values, dag_values_unique; task-spec cull (spec_cull_preserves_eval: requested keys kept, "
+              "sub-graph, dependency-closed, every kept key evaluates identically at every depth); substitute "
+              "(substitute_preserves_eval / substitute_eval: the substitution lemma through aliases, TaskRefs, nested tasks and kwargs; "
+              "substitute_inline_preserves_values, substitute_rename_preserves_values at graph level); resolve_aliases "
+              "(resolve_aliases_preserves_eval: the whole worklist loop, incl. the invariant that the never-updated `dependents` "
+              "mapping keeps giving the right number of dependents; requested keys stay, every remaining key keeps its value); the "
+              "name of fused tasks (fused_names_differ_on_top_key, renamer_collision_iff: two names share a key iff equal or both "
+              "over-long with equal prefix and equal digest of the FULL name, with the constants re-extracted from the source; "
+              "renamer_length_le). PROVED CHECKERS applied to every real output of the run (translation validation): fuseOK_sound "
+              "(inline, inline_functions, fuse_linear, fuse without renaming), fuseOKR_sound (the same with rename_keys=True/custom: "
+              "alias insertion, renamed references, deleted old keys), fuse_spec_preserves_eval (fuse_linear_task_spec and "
+              "GraphNode.fuse: an accepted output keeps all requested keys and every key present in both graphs computes the same "
+              "value, for every cache). PARTIAL: that fuse/fuse_linear/inline/fuse_linear_task_spec always produce outputs the "
+              "checkers accept is validated per run, not proved (fuse_linear_task_spec is transliterated and diffed at function level); "
+              "loop fuel of the task-spec cull/resolve_aliases models is validated (the model never answers 'fuel').")
+LEVEL_NOTE = ("Trusted: Lean kernel + standard axioms; hand transliterations tied by function-level diffs (legacy cull keys + "
+              "dependency map, subs, get_dependencies; task-spec cull, substitute, resolve_aliases, fuse_linear_task_spec, "
+              "GraphNode.fuse incl. its ValueError, default_fused_keys_renamer with key_split taken from the real code and the md5 "
+              "digest recomputed by the harness); every real optimiser output is evaluated with dask.core.get; the model's evaluator "
+              "of fused graphs (evalKeyF) is diffed against the real execution of _execute_subgraph tasks. Fixed in /repo: "
               "fuse(ave_width=inf) OverflowError; fuse_linear_task_spec with unrenamable (int) keys stored the fused task under None; "
-              "key_split(()) IndexError in fuse renaming.")
-TECHNIQUE = "Lean 4 proof (substitution lemma, reachability closure) + proved checker on real fuse outputs + differential correspondence"
+              "key_split(()) IndexError in fuse renaming; fuse_linear_task_spec overwrote a task when the renamed key was already "
+              "taken (11f7d6c); substitute/fuse ignored a falsy new key (7e731f4); Alias.substitute ignored key= for an identity "
+              "entry (3dbafa6).")
+TECHNIQUE = ("Lean 4 proof (substitution lemmas, reachability closure, least-fixpoint evaluation with a transfer lemma, counting "
+             "invariant) + proved checkers on real optimiser outputs + differential correspondence")
 ASSUMPTIONS = ["user functions are pure and total and left uninterpreted",
-               "values are observed with dask.core.get (conversion + execute_graph), as the statement says"]
+               "values are observed with dask.core.get (conversion + execute_graph), as the statement says",
+               "graphs are dicts: keys are duplicate-free (hypothesis of resolve_aliases_preserves_eval); `dependents` handed to "
+               "resolve_aliases is reverse_dict of the graph's dependencies (checked per case: countRefs = len(dependents[k]))",
+               "fused-key names stay apart only as far as md5 of the full name is collision-free (renamer_collision_iff is exact; "
+               "fuse_linear_task_spec and fuse additionally fall back to the top key when a name is taken)"]
 CASE_TIMEOUT_S = 15
 
 
@@ -56,6 +75,16 @@ def _vals(dsk, keys):
 
 def _jkey(j):
     return json.dumps(j, sort_keys=True)
+
+
+def _jkey_graph(g):
+    out = []
+    for k, v in g.items():
+        try:
+            out.append((_jkey(to_sexp(k)), _jkey(to_sexp(v))))
+        except TypeError:
+            out.append((repr(k), repr(v)))
+    return sorted(out)
 
 
 def _classes(items):
@@ -164,6 +193,50 @@ def _checker(ctx, op, items, dsk, out, S, req, classes):
         ctx.branch("fuseOK-nontrivial")
 
 
+def _checker_renamed(ctx, op, dsk, out, rec, req, classes):
+    """feed a real output with renamed keys to the proved checker `fuseOKR`; `rec` = the (root key, new name) pairs the
+    recording renamer saw"""
+    if classes:
+        ctx.branch("checker-skipped-known-divergence-class")
+        return
+    R, seen_new = [], set()
+    for old, new_ in rec:
+        try:
+            if new_ is None or new_ in seen_new or new_ in dsk or new_ not in out:
+                continue
+            if old in out and out[old] != new_:
+                continue
+        except TypeError:
+            continue
+        seen_new.add(new_)
+        R.append((old, new_))
+    olds = {o for o, _ in R}
+    try:
+        gs = [[to_sexp(k), to_sexp(v)] for k, v in dsk.items()]
+        hs = [[to_sexp(k), to_sexp(v)] for k, v in out.items()]
+        S = [to_sexp(k) for k in dsk if k not in out and k not in olds]
+        ok = ctx.lean(Sym("fuse_okr"), gs, hs, S, [[to_sexp(o), to_sexp(n)] for o, n in R], [to_sexp(k) for k in req])
+    except TypeError:
+        return
+    ctx.eq(f"{op}: proved checker fuseOKR accepts the real renamed output", ok, True)
+    ctx.branch("fuseOKR-" + op)
+    if R:
+        ctx.branch("fuseOKR-renamed")
+        if any(o not in out for o, _ in R):
+            ctx.branch("fuseOKR-old-key-deleted")
+
+
+def _recording(renamer, root_of):
+    rec = []
+
+    def r(chain):
+        chain = list(chain)
+        new_ = renamer(chain)
+        rec.append((root_of(chain), new_))
+        return new_
+    return r, rec
+
+
 def _renamer(keys):
     return "R-" + "-".join(str(k) if not isinstance(k, tuple) else "_".join(map(str, k)) for k in keys)
 
@@ -240,6 +313,17 @@ def case_opt(ctx, inp):
             _check_graph(ctx, "fuse_linear", items, dsk, keys, g, d, want, classes, protected=kk is not None)
             if rk is False:
                 _checker(ctx, "fuse_linear", items, dsk, g, [k for k in dsk if k not in g], keys if kk is not None else [], classes)
+            else:
+                # the same call with a renamer that records its arguments (the default one when rename_keys=True)
+                from dask.optimization import default_fused_linear_keys_renamer
+                rr, rec = _recording(default_fused_linear_keys_renamer if rk is True else rk, lambda c: c[0])
+                try:
+                    g2, _ = fuse_linear(dsk, keys=kk, rename_keys=rr)
+                except Exception as e:
+                    ctx.fail(f"fuse_linear raised {type(e).__name__}: {e}")
+                    continue
+                ctx.eq("fuse_linear: a renamer that wraps the default one gives the same graph", _jkey_graph(g2), _jkey_graph(g))
+                _checker_renamed(ctx, "fuse_linear", dsk, g2, rec, keys if kk is not None else [], classes)
             if len(g) != len(dsk):
                 ctx.branch("fuse_linear-fuses")
     # fuse: parameter grid
@@ -259,6 +343,16 @@ def case_opt(ctx, inp):
                 _check_graph(ctx, "fuse", items, dsk, keys, g, d, want, classes, protected=kk is not None)
                 if rk is False:
                     _checker(ctx, "fuse", items, dsk, g, [k for k in dsk if k not in g], keys if kk is not None else [], classes)
+                else:
+                    from dask.optimization import default_fused_keys_renamer
+                    rr, rec = _recording(default_fused_keys_renamer if rk is True else rk, lambda c: c[-1])
+                    try:
+                        g2, _ = fuse(dsk, keys=kk, ave_width=aw, max_width=mw, max_height=mh, max_depth_new_edges=mdne, rename_keys=rr)
+                    except Exception as e:
+                        ctx.fail(f"fuse raised {type(e).__name__}: {e}")
+                        continue
+                    ctx.eq("fuse: a renamer that wraps the default one gives the same graph", _jkey_graph(g2), _jkey_graph(g))
+                    _checker_renamed(ctx, "fuse", dsk, g2, rec, keys if kk is not None else [], classes)
                 if len(g) != len(dsk):
                     ctx.branch("fuse-fuses")
                 if len(g) > len(dsk):
@@ -594,6 +688,19 @@ def _spec_passes(ctx, dsk, keys, want, tag=""):
                          observed=[repr(r.key)], expected=[repr(newkey)])
         if subs:
             ctx.branch("substitute-applied")
+    # --- substitute at graph level: move a non-requested key to a new name and rename every reference to it
+    used = sorted({d for k in dsk for d in deps[k] if d in dsk and d not in keys}, key=repr)
+    if used:
+        old = used[len(dsk) % len(used)]
+        fresh = ("moved", 0)
+        try:
+            out = {k: n.substitute({old: fresh}, key=k) for k, n in dsk.items() if k != old}
+            out[fresh] = dsk[old].substitute({}, key=fresh)
+        except Exception as e:
+            ctx.fail(f"substitute raised {type(e).__name__}: {e}")
+        else:
+            check("substitute(move a key and rename its references)", out)
+            ctx.branch("substitute-move")
 
 
 def case_specfn(ctx, inp):
@@ -654,7 +761,59 @@ def case_shape(ctx, inp):
         ctx.branch("shape-long-names")
 
 
-CASES = {"opt": case_opt, "fn": case_fn, "spec": case_spec, "specfn": case_specfn, "shape": case_shape}
+def _md5(name):
+    import hashlib
+    return hashlib.md5(name.encode(errors="surrogatepass"), usedforsecurity=False).hexdigest()
+
+
+def _model_fused_name(ctx, keys, max_len):
+    """the model's name for a chain of string / (string, ...) keys: key_split is taken from the real code (it is
+    modelled by group stores), everything else from Model/FusedName.lean; the digest is md5 of the FULL name"""
+    from dask.utils import key_split
+    first = keys[-1]
+    last = first if isinstance(first, str) else first[0]
+    names = [key_split(k) for k in reversed(keys[:-1])]
+    m = Sym("none") if max_len is None else max_len
+    concat, _ = ctx.lean(Sym("fused_name"), names, key_split(first), last, m, "")
+    _, res = ctx.lean(Sym("fused_name"), names, key_split(first), last, m, _md5(concat))
+    return concat, (res if isinstance(first, str) else (res,) + tuple(first[1:]))
+
+
+def case_rename(ctx, inp):
+    """default_fused_keys_renamer at function level: the model's name for each chain, and pairwise distinctness of the
+    names of chains that differ (same operations over different data, over-long names included)"""
+    from dask.optimization import default_fused_keys_renamer
+    chains = [[tuple(k) if isinstance(k, list) else k for k in c] for c in inp["chains"]]
+    for max_len in inp["limits"]:
+        got = []
+        for c in chains:
+            try:
+                real = default_fused_keys_renamer(c) if max_len == "default" else default_fused_keys_renamer(c, max_len)
+            except Exception as e:
+                ctx.fail(f"default_fused_keys_renamer raised {type(e).__name__}: {e}")
+                return
+            concat, model = _model_fused_name(ctx, c, 120 if max_len == "default" else max_len)
+            ctx.eq("default_fused_keys_renamer (model vs code)", _canon(to_sexp(model)), _canon(to_sexp(real)))
+            got.append((concat, c[-1][1:] if isinstance(c[-1], tuple) else (), real))
+            name = real if isinstance(real, str) else real[0]
+            lim = 120 if max_len == "default" else max_len
+            if lim and lim >= 33 and len(name) > lim:
+                ctx.fail("default_fused_keys_renamer: the name exceeds max_fused_key_length", observed=[len(name), lim])
+            if len(concat) > (lim or 10 ** 9) - 5 > 0:
+                ctx.branch("rename-cut")
+        # chains with different full names (or different block indices) must get different keys: md5 of the full name
+        for i in range(len(got)):
+            for j in range(i + 1, len(got)):
+                same_in = got[i][0] == got[j][0] and got[i][1] == got[j][1]
+                if not same_in and got[i][2] == got[j][2]:
+                    ctx.disagree("two chains with different concatenated names share one fused key (the model keeps them apart: "
+                                 "renamer_collision_iff with an injective digest)", "distinct", [repr(got[i][2])])
+                if not same_in and got[i][0][:60] == got[j][0][:60] and len(got[i][0]) > 115:
+                    ctx.branch("rename-overlong-same-prefix-pair")
+
+
+CASES = {"opt": case_opt, "fn": case_fn, "spec": case_spec, "specfn": case_specfn, "shape": case_shape,
+         "rename": case_rename}
 
 
 
@@ -766,3 +925,14 @@ def generate(ctx):
         yield "specfn", {"graph": g, "keys": _rand_keys(rng, n)}
     for _ in range(ctx.n(250)):
         yield "shape", _gen_shape(rng)
+    for _ in range(ctx.n(60)):
+        L = rng.randint(2, 4)
+        long = rng.random() < 0.6
+        ops = [rng.choice(_OPS_LONG if long else _OPS_SHORT) + rng.choice(["", "-part", "_x"]) for _ in range(L)]
+        tup = rng.random() < 0.4
+        chains = []
+        for c in range(rng.randint(2, 4)):
+            tok = "%032x" % rng.getrandbits(128) if rng.random() < 0.5 else "%08x" % rng.getrandbits(32)
+            ch = [f"{ops[j]}-{tok}" for j in range(L)]
+            chains.append([[k, c % 2, 0] for k in ch] if tup else ch)
+        yield "rename", {"chains": chains, "limits": ["default", None, 0, rng.choice([40, 64, 120, 200]), rng.choice([33, 34, 38])]}
